@@ -160,17 +160,18 @@ def direct_tables(ctx):
 
 def run(ctx: Ctx) -> int:
     q = ctx.quick
-    size, ln = (4, 3) if q else (6, 4)
+    size, ln = (4, 3) if q else (5, 4)        # (size 6 is several million programs: beyond what the replay can hold in memory)
     r = ctx.tlc("MC_C02", "SPECIFICATION Spec\nCONSTANTS SIZE = %d LEN = %d\n%s" % (size, ln, INV), dump=True,
                 name="all nestings up to size %d, element lists up to %d" % (size, ln))
     states = read_dump(r.dump)
     items = [(s["e"], s["exp"], i % 26) for i, s in enumerate(states)]
     if not q and len(items) > 400000:
-        # replay every program of size <= 5 and every third of size 6 (all are model-checked)
+        # replay every program of size <= 4 and a sample of size 5 (all are model-checked)
         def sz(p):
             return 1 + sum(sz(v) for v in p.values() if isinstance(v, dict))
-        items = [it for j, it in enumerate(items) if sz(it[0]) <= 5 or j % 3 == 0]
-        ctx.cov["replay_note"] = "size-6 programs replayed 1 in 3; all sizes <= 5 replayed"
+        k = max(2, len(items) // 300000)
+        items = [it for j, it in enumerate(items) if sz(it[0]) <= 4 or j % k == 0]
+        ctx.cov["replay_note"] = "size-5 programs replayed 1 in %d; all sizes <= 4 replayed" % k
     nev = 0
     for n, bad in pmap(_replay, items):
         nev += n
